@@ -102,6 +102,7 @@ struct Work {
   // Optional: an expression sharing a sub-node with the one `run` evaluates;
   // built by the same call; evaluated afterwards with a FRESH context.
   bool hasSibling = false;
+  int aliasOperands = 0;
 };
 
 Manifold smallSolid(vh::Rng& r, int big) {
@@ -132,6 +133,19 @@ Work makeWork(vh::Rng& r, int big) {
   int kind = (int)r.below(12);
   auto ops = [&](int n) {
     for (int i = 0; i < n; i++) {
+      if (r.chance(0.35)) {
+        // an "already evaluated operand" held through an ALIAS of an op node:
+        // evaluating `e` turns e's own handle into a leaf, while `alias` keeps
+        // pointing at the op node whose result is cached. Such a node can sit on
+        // the evaluator's stack (finished, waiting to be collapsed) when a
+        // cancel is noticed.
+        Manifold e = smallSolid(r, big) + smallSolid(r, big).Translate(vec3(0.15, 0.1, 0.05));
+        Manifold alias = e;
+        e.Status();
+        w.operands.push_back(alias);
+        w.aliasOperands++;
+        continue;
+      }
       Manifold m = smallSolid(r, big);
       m.Status();  // evaluate the operand now
       w.operands.push_back(m);
@@ -303,6 +317,7 @@ void vh_case(vh::Ctx& c) {
   gSibling = Manifold();
   Obs R = observe(ref);
   c.count("reference_runs");
+  c.count("alias_of_evaluated_opnode_operands", w.aliasOperands);
   c.count("checks_in_reference_runs", N);
   c.count("progress_samples", M.progressSamples);
   bool progressReported = false;  // report once per case, keep exploring (a known finding must not mask the rest)
